@@ -62,10 +62,12 @@ type referenceTracker struct {
 	references database.References
 
 	// helper maps to track the rows that we are processing and their tables
-	tracked map[string]string
-	added   map[string]string
-	deleted map[string]string
+	tracked map[rowKey]struct{}
+	added   map[rowKey]struct{}
+	deleted map[rowKey]struct{}
 }
+
+type rowKey struct{ table, uuid string }
 
 func newReferenceTracker(dbModel model.DatabaseModel, provider ReferenceProvider) *referenceTracker {
 	return &referenceTracker{
@@ -76,9 +78,9 @@ func newReferenceTracker(dbModel model.DatabaseModel, provider ReferenceProvider
 
 func (rt *referenceTracker) processReferences(updates ModelUpdates) (ModelUpdates, ModelUpdates, database.References, error) {
 	rt.updates = updates
-	rt.tracked = make(map[string]string)
-	rt.added = make(map[string]string)
-	rt.deleted = make(map[string]string)
+	rt.tracked = make(map[rowKey]struct{})
+	rt.added = make(map[rowKey]struct{})
+	rt.deleted = make(map[rowKey]struct{})
 	rt.references = make(database.References)
 
 	referenceUpdates, err := rt.processReferencesLoop(updates)
@@ -168,7 +170,7 @@ func (rt *referenceTracker) processRowUpdate(table, uuid string, row *ovsdb.RowU
 	var updateRefs database.References
 	switch {
 	case row.Delete != nil:
-		rt.deleted[uuid] = table
+		rt.deleted[rowKey{table, uuid}] = struct{}{}
 		updateRefs = getReferenceModificationsFromRow(&rt.dbModel, table, uuid, row.Old, row.Old)
 	case row.Modify != nil:
 		updateRefs = getReferenceModificationsFromRow(&rt.dbModel, table, uuid, row.Modify, row.Old)
@@ -176,8 +178,8 @@ func (rt *referenceTracker) processRowUpdate(table, uuid string, row *ovsdb.RowU
 		if !isRoot(&rt.dbModel, table) {
 			// track rows added that are not part of the root set, we might need
 			// to delete those later
-			rt.added[uuid] = table
-			rt.tracked[uuid] = table
+			rt.added[rowKey{table, uuid}] = struct{}{}
+			rt.tracked[rowKey{table, uuid}] = struct{}{}
 		}
 		updateRefs = getReferenceModificationsFromRow(&rt.dbModel, table, uuid, row.Insert, nil)
 	}
@@ -210,7 +212,7 @@ func (rt *referenceTracker) processStrongReferences() (ModelUpdates, error) {
 	}
 
 	// track if rows are referenced or not
-	isReferenced := map[string]bool{}
+	isReferenced := map[rowKey]bool{}
 
 	// go over the updated references
 	for spec, refs := range rt.references {
@@ -238,33 +240,34 @@ func (rt *referenceTracker) processStrongReferences() (ModelUpdates, error) {
 			}
 
 			// track if this row is referenced from this location spec
-			isReferenced[to] = isReferenced[to] || len(from) > 0
+			k := rowKey{spec.ToTable, to}
+			isReferenced[k] = isReferenced[k] || len(from) > 0
 		}
 	}
 
 	// inserted rows that are unreferenced and not part of the root set will
 	// silently be dropped from the updates
-	for uuid := range rt.added {
-		if isReferenced[uuid] {
+	for k := range rt.added {
+		if isReferenced[k] {
 			continue
 		}
-		isReferenced[uuid] = false
+		isReferenced[k] = false
 	}
 
 	// delete rows that are not referenced
 	updates := ModelUpdates{}
-	for uuid, isReferenced := range isReferenced {
+	for k, isReferenced := range isReferenced {
 		if isReferenced {
 			// row is still referenced, ignore
 			continue
 		}
 
-		if rt.deleted[uuid] != "" {
+		if _, ok := rt.deleted[k]; ok {
 			// already deleted, ignore
 			continue
 		}
 
-		table := rt.tracked[uuid]
+		table, uuid := k.table, k.uuid
 		if isRoot(&rt.dbModel, table) {
 			// table is part of the root set, ignore
 			continue
@@ -295,9 +298,8 @@ func (rt *referenceTracker) processWeakReferences() (ModelUpdates, error) {
 		return ModelUpdates{}, err
 	}
 
-	tables := map[string]string{}
-	originalRows := map[string]ovsdb.Row{}
-	updatedRows := map[string]ovsdb.Row{}
+	originalRows := map[rowKey]ovsdb.Row{}
+	updatedRows := map[rowKey]ovsdb.Row{}
 
 	for spec, refs := range rt.references {
 		// fetch some reference information from the schema
@@ -328,17 +330,18 @@ func (rt *referenceTracker) processWeakReferences() (ModelUpdates, error) {
 
 			// generate the updates to remove the references to deleted rows
 			for _, uuid := range from {
-				if _, ok := updatedRows[uuid]; !ok {
-					updatedRows[uuid] = ovsdb.NewRow()
-				}
-
-				if rt.deleted[uuid] != "" {
+				k := rowKey{spec.FromTable, uuid}
+				if _, ok := rt.deleted[k]; ok {
 					// already deleted, ignore
 					continue
 				}
 
+				if _, ok := updatedRows[k]; !ok {
+					updatedRows[k] = ovsdb.NewRow()
+				}
+
 				// fetch the original rows
-				if originalRows[uuid] == nil {
+				if originalRows[k] == nil {
 					originalRow, err := rt.getRow(spec.FromTable, uuid)
 					if err != nil {
 						return ModelUpdates{}, err
@@ -346,7 +349,7 @@ func (rt *referenceTracker) processWeakReferences() (ModelUpdates, error) {
 					if originalRow == nil {
 						return ModelUpdates{}, fmt.Errorf("reference from non-existent model with uuid %s", uuid)
 					}
-					originalRows[uuid] = *originalRow
+					originalRows[k] = *originalRow
 				}
 
 				var becomesLen int
@@ -354,9 +357,9 @@ func (rt *referenceTracker) processWeakReferences() (ModelUpdates, error) {
 				case ovsdb.TypeMap:
 					// a map referencing the row
 					// generate the mutation to remove the entry form the map
-					originalMap := originalRows[uuid][spec.FromColumn].(ovsdb.OvsMap).GoMap
+					originalMap := originalRows[k][spec.FromColumn].(ovsdb.OvsMap).GoMap
 					var mutationMap map[interface{}]interface{}
-					value, ok := updatedRows[uuid][spec.FromColumn]
+					value, ok := updatedRows[k][spec.FromColumn]
 					if !ok {
 						mutationMap = map[interface{}]interface{}{}
 					} else {
@@ -370,13 +373,13 @@ func (rt *referenceTracker) processWeakReferences() (ModelUpdates, error) {
 						becomesLen = len(originalMap) - len(mutationMap)
 					}
 
-					updatedRows[uuid][spec.FromColumn] = ovsdb.OvsMap{GoMap: mutationMap}
+					updatedRows[k][spec.FromColumn] = ovsdb.OvsMap{GoMap: mutationMap}
 
 				case ovsdb.TypeSet:
 					// a set referencing the row
 					// generate the mutation to remove the entry form the set
 					var mutationSet []interface{}
-					value, ok := updatedRows[uuid][spec.FromColumn]
+					value, ok := updatedRows[k][spec.FromColumn]
 					if !ok {
 						mutationSet = []interface{}{}
 					} else {
@@ -386,15 +389,15 @@ func (rt *referenceTracker) processWeakReferences() (ModelUpdates, error) {
 
 					// track the new length of the set
 					if !isEmptyAllowed {
-						originalSet := originalRows[uuid][spec.FromColumn].(ovsdb.OvsSet).GoSet
+						originalSet := originalRows[k][spec.FromColumn].(ovsdb.OvsSet).GoSet
 						becomesLen = len(originalSet) - len(mutationSet)
 					}
 
-					updatedRows[uuid][spec.FromColumn] = ovsdb.OvsSet{GoSet: mutationSet}
+					updatedRows[k][spec.FromColumn] = ovsdb.OvsSet{GoSet: mutationSet}
 
 				case ovsdb.TypeUUID:
 					// this is an atomic UUID value that needs to be cleared
-					updatedRows[uuid][spec.FromColumn] = nil
+					updatedRows[k][spec.FromColumn] = nil
 					becomesLen = 0
 				}
 
@@ -405,16 +408,14 @@ func (rt *referenceTracker) processWeakReferences() (ModelUpdates, error) {
 						spec.FromColumn, spec.FromTable, uuid))
 				}
 
-				// track the table of the row we are going to update
-				tables[uuid] = spec.FromTable
 			}
 		}
 	}
 
 	// process the updates
 	updates := ModelUpdates{}
-	for uuid, rowUpdate := range updatedRows {
-		update, err := rt.updateRow(tables[uuid], uuid, rowUpdate)
+	for k, rowUpdate := range updatedRows {
+		update, err := rt.updateRow(k.table, k.uuid, rowUpdate)
 		if err != nil {
 			return ModelUpdates{}, err
 		}
@@ -443,7 +444,7 @@ func copyMapKeyValues(from, to map[interface{}]interface{}, isKey bool, keyValue
 // initReferences initializes the references to the provided row from the
 // database
 func (rt *referenceTracker) initReferences(table, uuid string) error {
-	if _, ok := rt.tracked[uuid]; ok {
+	if _, ok := rt.tracked[rowKey{table, uuid}]; ok {
 		// already initialized
 		return nil
 	}
@@ -452,13 +453,13 @@ func (rt *referenceTracker) initReferences(table, uuid string) error {
 		return err
 	}
 	rt.references.UpdateReferences(existingRefs)
-	rt.tracked[uuid] = table
+	rt.tracked[rowKey{table, uuid}] = struct{}{}
 	return nil
 }
 
 func (rt *referenceTracker) initReferencesOfDeletedRows() error {
-	for uuid, table := range rt.deleted {
-		err := rt.initReferences(table, uuid)
+	for k := range rt.deleted {
+		err := rt.initReferences(k.table, k.uuid)
 		if err != nil {
 			return err
 		}
@@ -481,7 +482,7 @@ func (rt *referenceTracker) deleteRow(table, uuid string) (ModelUpdates, error) 
 	update := ovsdb.RowUpdate2{Delete: &ovsdb.Row{}, Old: row}
 	err = updates.AddRowUpdate2(rt.dbModel, table, uuid, model, update)
 
-	rt.deleted[uuid] = table
+	rt.deleted[rowKey{table, uuid}] = struct{}{}
 
 	return updates, err
 }
@@ -543,7 +544,7 @@ func (rt *referenceTracker) updateRow(table, uuid string, row ovsdb.Row) (ModelU
 
 // getModel gets the model from the updates or the database
 func (rt *referenceTracker) getModel(table, uuid string) (model.Model, error) {
-	if _, deleted := rt.deleted[uuid]; deleted {
+	if _, deleted := rt.deleted[rowKey{table, uuid}]; deleted {
 		// model has been deleted
 		return nil, nil
 	}
@@ -567,7 +568,7 @@ func (rt *referenceTracker) getModel(table, uuid string) (model.Model, error) {
 
 // getRow gets the row from the updates or the database
 func (rt *referenceTracker) getRow(table, uuid string) (*ovsdb.Row, error) {
-	if _, deleted := rt.deleted[uuid]; deleted {
+	if _, deleted := rt.deleted[rowKey{table, uuid}]; deleted {
 		// row has been deleted
 		return nil, nil
 	}
